@@ -461,6 +461,20 @@ mod broadword;
 
 pub use self::broadword::validate_utf8_broadword;
 
+/// Verification hooks: the accept-only fast paths without their scalar fallback.
+#[cfg(feature = "verif-hooks")]
+#[doc(hidden)]
+pub fn verif_broadword_accepts(input: &[u8]) -> bool {
+    self::broadword::accepts(input)
+}
+#[cfg(all(
+    feature = "verif-hooks",
+    target_arch = "x86_64",
+    any(test, feature = "std")
+))]
+#[doc(hidden)]
+pub use self::simd_x86::verif_validate_utf8_avx2;
+
 /// Get the expected sequence length from a lead byte.
 /// Returns 0 for invalid lead bytes (continuation bytes or 0xF8+).
 #[inline]
